@@ -479,6 +479,44 @@ pub fn gen_data(rng: &mut Rng, sw: &Swarm) -> SpecMessage {
     } else {
         None
     };
+    // what tunnels carry: the payload (after the offset padding) is a PPP
+    // frame now and then - LCP / IPCP / PAP / CHAP packets with their own
+    // code, identifier and length, IPv4, with or without the address and
+    // control octets, with a one- or two-octet protocol number
+    let mut data = data;
+    if rng.chance(1, 5) {
+        let pad = offset.map_or(0, |n| n as usize);
+        let room = dl - pad;
+        let proto: &[u8] = *rng.pick(&[
+            &[0xc0u8, 0x21][..],
+            &[0xc0, 0x21],
+            &[0x80, 0x21],
+            &[0xc0, 0x23],
+            &[0xc2, 0x23],
+            &[0x00, 0x21],
+            &[0x21],
+            &[0x80, 0xfd],
+        ]);
+        let mut f: Vec<u8> = Vec::new();
+        if rng.chance(3, 4) {
+            f.extend_from_slice(&[0xff, 0x03]);
+        }
+        f.extend_from_slice(proto);
+        if proto.last() == Some(&0x21) && proto.first() != Some(&0xc0) && proto.first() != Some(&0x80) {
+            // IPv4 header start
+            f.extend_from_slice(&[0x45, 0x00]);
+            f.extend_from_slice(&(room as u16).to_be_bytes());
+        } else {
+            // code (1..=12: Configure-Request .. Identification; 9/10 echo), identifier, length
+            f.push(*rng.pick(&[1u8, 2, 3, 4, 5, 6, 9, 9, 10, 11, 12]));
+            f.push(rng.u8());
+            let l = (room.saturating_sub(f.len() - 2)) as u16;
+            f.extend_from_slice(&l.to_be_bytes());
+            f.extend_from_slice(&rng.bytes(4)); // magic number
+        }
+        let k = f.len().min(room);
+        data[pad..pad + k].copy_from_slice(&f[..k]);
+    }
     let total = data_header_len(has_l, has_s, has_o) + dl;
     SpecMessage::Data {
         prio,
